@@ -476,8 +476,9 @@ def _find_closing_brace(string):
         else:
             raise ValueError(next_brace.group())
 
-    if not up_to_brace:
-        up_to_brace, string = [string], ''
+    if brace_level >= 1:
+        # the group is never closed: everything left belongs to it
+        up_to_brace, string = up_to_brace + [string], ''
     return ''.join(up_to_brace), string
 
 
